@@ -929,7 +929,10 @@ type c11PaiCase struct {
 	Set  int    `json:"set"`
 }
 
-func c11Paillier(ctx *core.Ctx, keys []eckg.LocalPartySaveData, cov *core.Cov) {
+// prefixOps (ProofHistory!DomRows): the operations for which every out-of-domain call is preceded, in this process, by a call
+// with the congruent in-domain value (v mod N for plaintexts, c mod N^2 for ciphertexts): a domain test that remembers the
+// residues of values that passed must still refuse.
+func c11Paillier(ctx *core.Ctx, keys []eckg.LocalPartySaveData, cov *core.Cov, prefixOps map[string]bool) {
 	lib := pump.NewDRBG(ctx.Seed ^ 0x9a1)
 	rng := rand.New(rand.NewSource(ctx.Seed * 17))
 	type kp struct {
@@ -959,6 +962,9 @@ func c11Paillier(ctx *core.Ctx, keys []eckg.LocalPartySaveData, cov *core.Cov) {
 			var e error
 			pan := pcCall(func() { v, e = f() })
 			cov.Case("paillier|"+op+"|"+what, true)
+			if prefixOps[op] {
+				cov.Add("paillier_out_of_domain_calls_after_congruent_in_domain_call", 1)
+			}
 			sc := c11PaiCase{op, what, k.set}
 			switch {
 			case pan != "":
@@ -967,16 +973,29 @@ func c11Paillier(ctx *core.Ctx, keys []eckg.LocalPartySaveData, cov *core.Cov) {
 				ctx.Report("C11:paillier:"+op+":accepts-out-of-domain", fmt.Sprintf("paillier %s returns a value (%v...) for an out-of-domain input (%s) instead of an error", op, core.Short(fmt.Sprint(v), 40), what), sc)
 			}
 		}
+		// the history: the congruent in-domain value goes through the operation first (its result is of no interest)
+		pre := func(op string, f func()) {
+			if prefixOps[op] {
+				pcCall(f)
+			}
+		}
 		for w, m := range outM {
 			m := m
+			m0 := new(big.Int).Mod(m, N)
+			pre("Encrypt", func() { pk.Encrypt(lib, m0) })
 			check("Encrypt", "m="+w, func() (*big.Int, error) { return pk.Encrypt(lib, m) })
+			pre("HomoMult", func() { pk.HomoMult(m0, good) })
 			check("HomoMult", "m="+w, func() (*big.Int, error) { return pk.HomoMult(m, good) })
 		}
 		for w, c := range outC {
 			c := c
+			c0 := new(big.Int).Mod(c, N2)
+			pre("HomoMult", func() { pk.HomoMult(pcB(2), c0) })
 			check("HomoMult", "c="+w, func() (*big.Int, error) { return pk.HomoMult(pcB(2), c) })
+			pre("HomoAdd", func() { pk.HomoAdd(c0, good); pk.HomoAdd(good, c0) })
 			check("HomoAdd", "c1="+w, func() (*big.Int, error) { return pk.HomoAdd(c, good) })
 			check("HomoAdd", "c2="+w, func() (*big.Int, error) { return pk.HomoAdd(good, c) })
+			pre("Decrypt", func() { sk.Decrypt(c0) })
 			check("Decrypt", "c="+w, func() (*big.Int, error) { return sk.Decrypt(c) })
 		}
 		for w, c := range map[string]*big.Int{"0": pcB(0), "N": N, "multiple of P": new(big.Int).Mul(sk.P, pcB(3)), "multiple of Q": new(big.Int).Mul(sk.Q, pcB(5))} {
@@ -1194,8 +1213,29 @@ func C11(ctx *core.Ctx) error {
 		}
 		if _, isPai := probe["op"]; isPai {
 			cov := core.NewCov()
-			c11Paillier(ctx, keys, cov)
+			c11Paillier(ctx, keys, cov, map[string]bool{"Encrypt": true, "HomoMult": true, "HomoAdd": true, "Decrypt": true})
 			fmt.Printf("replay: Paillier domain cases re-run (%d cases)\n", cov.Evals)
+			return nil
+		}
+		if _, isTH := probe["toyhist"]; isTH {
+			// the toy histories are a deterministic function of the seed: run them again, in order, in this process
+			seed, _ := probe["seed"].(float64)
+			line, _ := probe["line"].(float64)
+			rounds, _ := probe["rounds"].(float64)
+			if rounds < 1 {
+				rounds = 6
+			}
+			saved := ctx.Seed
+			ctx.Seed = int64(seed)
+			hg := newC11HistGen(int64(seed))
+			hg.histories(int(rounds))
+			if int(line) < 1 || int(line) > len(hg.hl) {
+				return core.Inconcl("replay names toy history line %v of %d", line, len(hg.hl))
+			}
+			l := hg.hl[int(line)-1]
+			fmt.Printf("replay toy history line %d (%s %s %s, relation %s): real verifier %s, specification %s, failing %v\n", int(line), l.T.Sys, l.Step, l.Kind, l.Rel, l.Real, l.Twin, l.Vec.failing())
+			c11JudgeHist(ctx, l, int(line), int(rounds))
+			ctx.Seed = saved
 			return nil
 		}
 		if _, isToy := probe["toy"]; isToy {
@@ -1237,17 +1277,25 @@ func C11(ctx *core.Ctx) error {
 	var toyRes pcTraceResult
 	var toyErr error
 	var gen *pcToyGen
+	var hgen *c11HistGen
+	var htRes pcTraceResult
+	var htErr error
 	var wg sync.WaitGroup
 	wg.Add(1)
 	go func() {
 		defer wg.Done()
 		gen = newPcToyGen(ctx.Seed*37 + 11)
 		gen.crafted(ctx.Pick(4, 24))
+		// the toy histories after the history-free toy lines, in the same process
+		hgen = newC11HistGen(ctx.Seed)
+		hgen.histories(ctx.Pick(6, 30))
+		wg.Add(1)
+		go func() {
+			defer wg.Done()
+			htRes, htErr = c11ValidateHist(hgen.hl, 40*time.Minute)
+		}()
 		toyRes, toyErr = pcValidate(gen.lines, 40*time.Minute)
 	}()
-
-	// Paillier domain guards (cheap) while TLC works
-	c11Paillier(ctx, keys, cov)
 
 	// the history model and its catalogue, next to the guard classification
 	var hl *c11HistTLC
@@ -1268,6 +1316,16 @@ func C11(ctx *core.Ctx) error {
 		wg.Wait()
 		return core.Inconcl("%v", hlErr)
 	}
+	// Paillier domain guards (cheap), each out-of-domain call after the congruent in-domain one (rows of ProofHistory.tla)
+	prefixOps := map[string]bool{}
+	for _, r := range hl.DomRows {
+		prefixOps[r["op"]] = true
+	}
+	if len(prefixOps) != 4 {
+		wg.Wait()
+		return core.Inconcl("ProofHistory.tla printed %d domain rows, 4 expected", len(prefixOps))
+	}
+	c11Paillier(ctx, keys, cov, prefixOps)
 	// phase 1: every family on verifiers that have accepted nothing in this process; phase 2: the histories
 	t0 := time.Now()
 	results := c11RunAll(scs, keys, mods, pcWorkers())
@@ -1427,6 +1485,38 @@ func C11(ctx *core.Ctx) error {
 		}
 		cov.AddTraces(toyRes.Lines)
 	}
+	// ---- toy histories
+	if htErr != nil {
+		return core.Inconcl("toy history machinery failed: %v", htErr)
+	}
+	hToy := map[string]int{}
+	hToyDegenerate := 0
+	for i, l := range hgen.hl {
+		hToy[l.T.Sys+":"+l.Step+":"+l.Rel+":"+l.Real]++
+		if l.Real != l.Twin {
+			ctx.Note("drift: toy history %s %s (%s): the real verifier says %s, the harness's transcription %s (failing %v)", l.T.Sys, l.Step, l.Kind, l.Real, l.Twin, l.Vec.failing())
+		}
+		if c11JudgeHist(ctx, l, i+1, ctx.Pick(6, 30)) {
+			hToyDegenerate++
+		}
+	}
+	if !htRes.Accepted {
+		if len(ctx.Violations()) > 0 {
+			ctx.Note("ProofHistory_Trace.tla does not explain toy history line %d (%s): consistent with the violation(s) reported above", htRes.FailLine, core.Short(htRes.FailText, 200))
+		} else {
+			return core.Inconcl("ProofHistory_Trace.tla does not explain toy history line %d of %d: %s", htRes.FailLine, htRes.Lines, core.Short(htRes.FailText, 300))
+		}
+	} else {
+		if !htRes.SelfTest {
+			return core.Inconcl("self test: TLC did not refuse the toy history line whose relation to the accepted lines the harness had falsified - the binding is not effective")
+		}
+		cov.AddTraces(htRes.Lines)
+	}
+	for _, want := range []string{"dln:present:collide:rej", "dln:present:same:rej", "alice:present:collide:rej", "sch:present:same:rej", "bob:present:partial:rej", "fac:present:partial:rej"} {
+		if hToy[want] == 0 && len(ctx.Violations()) == 0 {
+			return core.Inconcl("toy histories: no line of class %s was produced", want)
+		}
+	}
 	if len(vacuous) > 0 && len(ctx.Violations()) == 0 {
 		return core.Inconcl("families never exercised (no presented transcript fails the guard the catalogue names): %v", vacuous)
 	}
@@ -1452,6 +1542,12 @@ func C11(ctx *core.Ctx) error {
 	cov.Set("history_cases", len(hresults))
 	cov.Set("history_wall_s", histWall)
 	cov.Set("histories", hist)
+	cov.Set("toy_history_lines_validated", htRes.Lines)
+	cov.Set("toy_history_outcomes", hToy)
+	cov.Set("toy_history_genuine_not_accepted", hgen.notAcc)
+	cov.Set("toy_history_false_statements_accepted_as_the_specification_predicts", hToyDegenerate)
+	cov.Set("toy_history_trace_tlc_wall_s", htRes.Res.Wall)
+	cov.Set("self_test_falsified_relation_refused", htRes.SelfTest)
 	cov.Set("toy_lines_validated", toyRes.Lines)
 	cov.Set("toy_outcomes", toyOut)
 	cov.Set("toy_guard_violated_alone_and_rejected_by_real_verifier", toyAlone)
